@@ -44,20 +44,40 @@ def kinds_of(sx):
 
 
 def cc(ctx):
+    return ctx.stage("cc", lambda: run_cc(ctx, "cc", os.path.join(VERIF, "corpus", "cc.txt"), False))
+
+
+def cc_findings(ctx):
+    """the same pipeline on the witness programs of known_findings.json only"""
     def run():
+        wd = ctx.workdir("kfcc")
+        progs = [k["program"] for k in load_known() if k.get("kind") == "cc"]
+        path = os.path.join(wd, "witness.txt")
+        with open(path, "w") as f:
+            f.write("\n".join(progs) + "\n")
+        if not progs:
+            return {"ok": True, "witness": {}}
+        r = run_cc(ctx, "kfcc", path, True)
+        return r
+    return ctx.stage("kfcc", run)
+
+
+def run_cc(ctx, name, corpus, only):
+    if True:
         h = stages.harness_stage(ctx)
         if not h["ok"]:
             return {"ok": False, "broken": "harness build failed", "detail": h["output"]}
-        wd = ctx.workdir("cc")
+        wd = ctx.workdir(name)
         vh = h["bin"]
         rc, out = sh([vh, "cgen", "-out", wd, "-tier", ctx.tier, "-seed", str(ctx.seed),
-                      "-corpus", os.path.join(VERIF, "corpus", "cc.txt")], env=GOENV, timeout=600)
+                      "-corpus", corpus] + (["-only-corpus"] if only else []), env=GOENV, timeout=600)
         if rc != 0:
             return {"ok": False, "broken": "generator failed", "detail": out[-2000:]}
         rc, err = stages.drive(os.path.join(wd, "req.txt"), os.path.join(wd, "pred.txt"))
         if rc != 0:
             return {"ok": False, "broken": "lean driver failed", "detail": err}
-        rc, out = sh([vh, "crun", "-dir", wd, "-repo", REPO, "-max-isolated", "10" if ctx.tier == "quick" else "40"],
+        rc, out = sh([vh, "crun", "-dir", wd, "-repo", REPO, "-max-isolated",
+                      "1000" if only else ("10" if ctx.tier == "quick" else "40")] + (["-batch", "1"] if only else []),
                      env=GOENV, timeout=7200)
         if rc != 0:
             return {"ok": False, "broken": "compile runner failed", "detail": out[-3000:]}
@@ -145,6 +165,17 @@ def cc(ctx):
             parts["k6d"]["n"] += 1
             if r["run_t"] != r["run_c"]:
                 dis("k6d", n, tmp_run=r["run_t"], final_run=r["run_c"])
+        verdicts = {}
+        if only:
+            for r in res:
+                n = r["name"]
+                v = {"source": src[n], "status": r["status"], "msg": r.get("msg", "")[:200],
+                     "model": pred[n][:60], "build": (r.get("build") or "")[:200]}
+                if r["status"] == "ok" and not r.get("build"):
+                    v["impl_eq_reference"] = r["run_c"] == r["run_r"]
+                    v["impl"] = r["run_c"][:400]
+                    v["reference"] = r["run_r"][:400]
+                verdicts[src[n]] = v
         for k in parts:
             parts[k]["dis"].sort(key=lambda d: d["size"])
             parts[k]["n_dis"] = len(parts[k]["dis"])
@@ -159,5 +190,4 @@ def cc(ctx):
                 "model_rejects": dict(Counter(p[4:] for p in pred.values() if p.startswith("err "))),
                 "statement_kinds": dict(kinds), "yields_delivered": n_yields, "panicking_runs": n_panics,
                 "distinct_nontrivial": len(distinct_traces), "gen_stats": gen_stats, "samples": samples,
-                "evaluations": len(res)}
-    return ctx.stage("cc", run)
+                "evaluations": len(res), "witness": verdicts}
